@@ -1,4 +1,5 @@
 CONSTANT AsCodedReinit = FALSE
+CONSTANT MolSlots = TRUE
 CONSTANT MaxCells = 8
 CONSTANT Acts = {"Combine", "MkPart", "MkMol", "PartFilter"}
 SPECIFICATION Spec
